@@ -281,3 +281,37 @@ pub fn run_rm(args: &[i128], cont: usize, rm: bool) -> Vec<i128> {
     }
     out
 }
+
+// CONCURRENT reasoning over one shared model (all reasoning methods take &self). line: causalconc tree... one call (code a b
+// use_idx nidx idx* nd data*), a = rounds / 1000.  Thread A repeats the call with the data as given, thread B with every
+// observation's verdict toggled (code 1 <-> 0).  output: verdict of A's first call, of B's first call, number of A's / B's
+// later calls whose verdict differs from the thread's first one.  A verdict is a function of model and data only, so the two
+// firsts must be the model's verdicts and the two counts 0, whatever the interleaving.
+pub fn run_conc(args: &[i128]) -> Vec<i128> {
+    let ctx1: &'static BaseContext = Box::leak(Box::new(Context::with_capacity(1, "c1", 2)));
+    let ctx2: &'static BaseContext = Box::leak(Box::new(Context::with_capacity(2, "c2", 2)));
+    let mut p = Parser { a: args, p: 0, ctxs: [ctx1, ctx2] };
+    let (c, _, _) = p.tree();
+    let c: &'static C = Box::leak(Box::new(c));
+    let _code = p.next(); let rounds = (p.next() as usize).max(1) * 1000; let _b = p.next(); let use_idx = p.next(); let nidx = p.next() as usize;
+    let mut idx: HashMap<u64, u64> = HashMap::new();
+    for _ in 0..nidx { let k = p.next() as u64; let v = p.next() as u64; idx.insert(k, v); }
+    let nd = p.next() as usize;
+    let data_a: Vec<f64> = (0..nd).map(|_| p.next() as f64).collect();
+    let data_b: Vec<f64> = data_a.iter().map(|o| match verdict_code(*o) { 1 => *o - 1.0, 0 => *o + 1.0, _ => *o }).collect();
+    let conv = |r: Result<bool, CausalityError>| -> i128 { match r { Ok(true) => 1, Ok(false) => 0, Err(_) => -1 } };
+    let idx_ref = &idx;
+    let work = |data: &Vec<f64>| -> (i128, i128) {
+        let io = if use_idx != 0 { Some(idx_ref) } else { None };
+        let first = conv(c.verify_all_causes(data, io));
+        let mut diff = 0;
+        for _ in 1..rounds { if conv(c.verify_all_causes(data, io)) != first { diff += 1; } }
+        (first, diff)
+    };
+    let (ra, rb) = std::thread::scope(|sc| {
+        let ha = sc.spawn(|| work(&data_a));
+        let hb = sc.spawn(|| work(&data_b));
+        (ha.join().unwrap(), hb.join().unwrap())
+    });
+    vec![ra.0, rb.0, ra.1, rb.1]
+}
